@@ -47,7 +47,11 @@ struct LogRecordSetterTrait<EventId>
   template <class ArgumentType>
   inline static LogRecord *Set(LogRecord *log_record, ArgumentType &&arg) noexcept
   {
-    log_record->SetEventId(arg.id_, nostd::string_view{arg.name_.get()});
+    // The name of an EventId is optional: EventId(id) leaves name_ null, and a null pointer must
+    // not be handed to string_view(const char *), which calls strlen() on it.
+    log_record->SetEventId(arg.id_, arg.name_.get() != nullptr
+                                        ? nostd::string_view{arg.name_.get()}
+                                        : nostd::string_view{});
 
     return log_record;
   }
